@@ -335,3 +335,9 @@ def run(ctx, report: Report) -> None:
                      f'{d[1]!r}: the line and column reported by SelectorSyntaxError count lines as CRLF, LF or CR (a form feed or other '
                      f'white space stays inside its line)')
 
+    # ---- R7 ----------------------------------------------------------------------------------------------
+    r7 = report.rule('C20-R7', 'line, column and caret for every offset of short patterns with every line-break style (bounded)', floor=1)
+    from .sem import pattern_context_table
+    pattern_context_table(ctx, r7)
+
+
